@@ -3,9 +3,9 @@
 # fresh scratch worktree (demo passes clean / fails changed; unedited suite passes changed)
 # and, if confirmed, stores it under /verif/seeded/<Cxx>-<A|B>/ .
 set -u
-P=$1; V=$2; SRC=${3:-/tmp/wt_$P/MUTANT}
-W=/tmp/verify_${P}_${V}
-OUT=/verif/seeded/${P}-${V}
+P=$1; V=$2; SRC=${3:-/tmp/wt_$P/MUTANT}; NAME=${4:-$V}
+W=/tmp/verify_${P}_${NAME}
+OUT=/verif/seeded/${P}-${NAME}
 [ -f $SRC/$V.diff ] || { echo "no $SRC/$V.diff"; exit 2; }
 git -C /repo worktree remove --force $W 2>/dev/null
 git -C /repo worktree add -q --detach $W HEAD || exit 2
@@ -20,6 +20,16 @@ changed_files=$(git diff --name-only | tr '\n' ' ')
 /venv/bin/python -W ignore MUTANT/demo_$V.py > /tmp/ingest_${P}_${V}_mut.log 2>&1; mut=$?
 timeout 3000 /venv/bin/python -m pytest -q -p no:cacheprovider -n 6 tests > /tmp/ingest_${P}_${V}_tests.log 2>&1; tests=$?
 summary=$(grep -E "passed|failed" /tmp/ingest_${P}_${V}_tests.log | tail -1)
+if [ $tests -ne 0 ]; then
+  # one Monte-Carlo test is order dependent under xdist: if it is the only failure, run its file
+  # serially (as the baseline command does) and accept a pass there
+  nf=$(grep -c "^FAILED" /tmp/ingest_${P}_${V}_tests.log)
+  only=$(grep "^FAILED" /tmp/ingest_${P}_${V}_tests.log | grep -c "test_get_density_of_linear_sum")
+  if [ "$nf" = "1" ] && [ "$only" = "1" ]; then
+    timeout 1500 /venv/bin/python -m pytest -q -p no:cacheprovider tests/test_pdf.py > /tmp/ingest_${P}_${V}_tests2.log 2>&1 && tests=0
+    summary="$summary; order-dependent Monte-Carlo test re-run serially: $(grep -E 'passed|failed' /tmp/ingest_${P}_${V}_tests2.log | tail -1)"
+  fi
+fi
 echo "$P-$V demo_clean_exit=$clean demo_changed_exit=$mut tests_exit=$tests [$summary] files: $changed_files"
 cd /
 if [ $clean -eq 0 ] && [ $mut -ne 0 ] && [ $tests -eq 0 ]; then
@@ -27,6 +37,7 @@ if [ $clean -eq 0 ] && [ $mut -ne 0 ] && [ $tests -eq 0 ]; then
   python3 - "$P" "$V" "$OUT" "$clean" "$mut" "$summary" "$changed_files" <<'PY'
 import json, sys
 p, v, out, clean, mut, summary, files = sys.argv[1:8]
+v = out.rsplit("-", 1)[1]
 meta = {"property": p, "variant": v, "files": files.split(),
         "confirmed": {"demo_exit_clean_tree": int(clean), "demo_exit_changed_tree": int(mut),
                       "unedited_test_suite_with_change": summary,
